@@ -239,7 +239,7 @@ PROPS["C20"] = {
 }
 
 PROPS["C09"] = {
-    "kani": [],
+    "kani": ["c09_text"],
     "verus": ["celllayout", "putcell", "utf8stream", "textlayout"],
     "technique": "Verus contracts on the single layout routine Cell::layout, on TerminalWriter::put_cell over the ghost window model of surfaces shared with C07 (frame condition), and on the streaming Utf8Decoder::decode against a byte-wise fold with chunk-independence lemmas; all extracted from the real code",
     "level_text": "Proved (Verus, every cell size, width, wrap mode, cursor and tracked size): Cell::layout keeps the writer invariant cursor.col <= max_width and size.width <= max_width, the tracked size is a "
@@ -256,6 +256,8 @@ PROPS["C09"] = {
                   "Proved (Verus, unit textlayout, every cell sequence and width >= 1): over the functional model `lay` of Cell::layout - tied to the real body by the /*sync*/ postcondition - "
                   "theorem_agree: folding the cells with any available width between the measured width W and the constraint width (in particular a surface exactly W wide) goes through the same states and puts every cell at the same position as measuring did; "
                   "theorem_in_box: every cell that gets a position lies inside the measured size. Together with put_cell's contract: rendering into a surface of the size the layout reported places every positioned cell, none outside. "
+                  "Text::layout / Text::render (Kani, bounded stand-ins on a two-cell text; Cell::layout resp. TerminalWriter::put_cell - both under Verus contract - replaced by recorders): layout calls Cell::layout once per cell, in order, "
+                  "with the constraint's maximum width and the text's own wrap flag and reports the measured size clamped to the constraint; render writes every cell once, in order, through a writer carrying the same wrap flag. "
                   "The glyph fallback path of put_cell, Cell::size (unicode-width / glyph / image geometry), the generic Utf8CellWriter loop, the escape-sequence writer (TTYCellWriter) and "
                   "Text::layout/render agreement ('every printable cell exactly once in reading order') are NOT decided.",
     "level_note": "Cell::size is an uninterpreted function; Face/Image/Glyph/ViewContext/Utf8Decoder-in-writer are opaque stand-ins (N18); the glyph-fallback prelude of put_cell is cut off by precondition (N16); SurfaceMutView operations are used through the contracts proved in unit surface.",
@@ -269,7 +271,7 @@ PROPS["C09"] = {
         "that the cells written by two writes equal those of one write of the concatenation is NOT mechanised end to end (it follows from decode == run + the concat lemmas + permanence of 'out of space' by reading)",
         "Utf8CellWriter::write / TTYCellWriter::write loops, TerminalWritable, Text::{layout,render}: not under contract "
         "(a Kani harness for put_cell was built and withdrawn: overwriting a Cell runs the drop glue of CellKind, whose discriminant lives in the niche of `char`; CBMC unrolls the recursive drop of rasterize::Scene without end)",
-        "textlayout: Text::layout / Text::render themselves (iterator for_each closures over a View trait object signature) are not extracted: that they ARE the folds `run` with ct.max.width resp. the surface width is by reading; "
+        "textlayout: Text::layout / Text::render are not extracted into Verus (for_each closures); that they ARE the folds `run` with ct.max.width resp. the surface width is checked by the bounded Kani harnesses c09_text_* on a two-cell text only; "
         "if a change breaks only the /*sync*/ clause the agreement theorems no longer speak about the code and the check answers undecided (exit 2)",
         "writer invariant cursor.col <= max_width, size.width <= max_width holds initially (TerminalWriter::new starts from origin and empty size)",
     ],
